@@ -111,7 +111,7 @@ def run_corpus(chk, tier):
         lines = ["%s 0 0 10 0 %s" % (s, b.hex() or "-") for s in structs for b in cands]
         items.append((binary, "\n".join(lines) + "\n"))
         idx.append((fn, text, structs, lines))
-    res1 = cppbuild.run_many(items, workers=6)
+    res1 = T.run_many_long(items, workers=6)
     items2, idx2 = [], []
     opts = [(m, c, b, g) for (m, c) in T.LAYOUTS_RR for b in T.BASES for g in (0, 1)]
     for (fn, text, structs, lines), (binary, _), res in zip(idx, items, res1):
@@ -137,7 +137,7 @@ def run_corpus(chk, tier):
         if lines2:
             items2.append((binary, "\n".join(lines2) + "\n"))
             idx2.append((fn, text, lines2))
-    for (fn, text, lines2), res, (binary2, _) in zip(idx2, cppbuild.run_many(items2, workers=6), items2):
+    for (fn, text, lines2), res, (binary2, _) in zip(idx2, T.run_many_long(items2, workers=6), items2):
         if res.kind != "ok":
             bad = None
             for ln in lines2:
